@@ -179,7 +179,7 @@ static void explore(struct outcome *o, long max_states) {
 
 int main(int argc, char **argv) {
     int a = common_args(argc, argv);
-    ref_init(VERIF_ROOT);
+    ref_init(VERIF_ROOT); env_init();      /* the libc-allocator harness goes through hcore's counting wrappers */
     dsz_ = __start_ps_data ? (size_t)(__stop_ps_data - __start_ps_data) : 0; bsz_ = __start_ps_bss ? (size_t)(__stop_ps_bss - __start_ps_bss) : 0; shsz = dsz_ + bsz_;
     polyseed_dependency d = { d_rand, d_kdf, d_mz, d_nfc, d_nfkd, d_time, d_alloc, d_free };
     polyseed_inject(&d); polyseed_enable_features(3);
@@ -191,6 +191,7 @@ int main(int argc, char **argv) {
     struct res *r = calloc(1, sizeof *r);
     if (a < argc && !strcmp(argv[a], "case")) {       /* case <harness> <pb> <choices> : re-execute one schedule, twice */
         HARNESS = atoi(argv[a + 1]); PB = atoi(argv[a + 2]); NT = (HARNESS == 3 || HARNESS == 5) ? 3 : 2;
+        { polyseed_dependency dd = { d_rand, d_kdf, d_mz, d_nfc, d_nfkd, d_time, HARNESS == 6 ? NULL : d_alloc, HARNESS == 6 ? NULL : d_free }; polyseed_inject(&dd); polyseed_enable_features(3); free(snap); snap = sec_copy(); }
         serial_reference();
         int n = 0; char *dup = strdup(a + 3 < argc ? argv[a + 3] : ""); for (char *t = strtok(dup, ","); t; t = strtok(NULL, ",")) prefix[n++] = atoi(t);
         int bad = 0; uint64_t k0 = 0;
@@ -201,11 +202,13 @@ int main(int argc, char **argv) {
     long max_states = G_thorough ? 6000000 : 1500000;
     static const char *CLS[] = { "executions", "executions_with_race", "executions_not_serially_equivalent", NULL };
     out_begin();
-    for (HARNESS = 1; HARNESS <= 5; HARNESS++) {
+    for (HARNESS = 1; HARNESS <= 6; HARNESS++) {
         if (onlyH && HARNESS != onlyH) continue;
         if (HARNESS == 5 && !G_thorough && !onlyH) continue;
         threads_stop();
         NT = (HARNESS == 3 || HARNESS == 5) ? 3 : 2;
+        /* H6 runs with the optional allocator entries NULL, every other harness with per-thread arenas */
+        { polyseed_dependency dd = { d_rand, d_kdf, d_mz, d_nfc, d_nfkd, d_time, HARNESS == 6 ? NULL : d_alloc, HARNESS == 6 ? NULL : d_free }; sec_load(snap); polyseed_inject(&dd); polyseed_enable_features(3); free(snap); snap = sec_copy(); }
         serial_reference();
         struct outcome o; memset(&o, 0, sizeof o);
         PB = -1; explore(&o, max_states);
@@ -220,7 +223,7 @@ int main(int argc, char **argv) {
         if (o.first[0]) { char key[100]; snprintf(key, sizeof key, "c20:%s:H%d", o.races ? "race" : o.cross ? "cross-thread" : "not-serial", HARNESS); res_viol(r, key, o.first, "harness H%d: %s", HARNESS, o.firstmsg); }
         char pp[100] = ""; for (int t = 0; t < NT; t++) snprintf(pp + strlen(pp), sizeof pp - strlen(pp), "%s%d", t ? "+" : "", ref_pts[t]);
         res_sample(r, "H%d: %d threads, shared-access points per thread %s, %ld executions, %llu distinct joint transcripts, max preemptions in one execution %d", HARNESS, NT, pp, o.execs, (unsigned long long)o.distinct_tr, o.max_preempt);
-        char name[160]; snprintf(name, sizeof name, "H%d (%d threads): %s", HARNESS, NT, HARNESS == 1 ? "create, encode(es), decode(auto), free" : HARNESS == 2 ? "load, crypt, keygen, encode(jp), decode_explicit, free" : HARNESS == 5 ? "3 x (create, encode, decode(auto), free) in es / fr / en, coin 9" : HARNESS == 4 ? "load+encode(zh_t)+decode(auto)+crypt(non-ASCII) | create+encode(ko)+store+decode_explicit" : "create+encode | load+encode+decode_explicit | load+crypt+keygen, all English / coin 1");
+        char name[160]; snprintf(name, sizeof name, "H%d (%d threads): %s", HARNESS, NT, HARNESS == 1 ? "create, encode(es), decode(auto), free" : HARNESS == 2 ? "load, crypt, keygen, encode(jp), decode_explicit, free" : HARNESS == 6 ? "libc allocator (alloc/free entries NULL): create, free, create, store, load, free" : HARNESS == 5 ? "3 x (create, encode, decode(auto), free) in es / fr / en, coin 9" : HARNESS == 4 ? "load+encode(zh_t)+decode(auto)+crypt(non-ASCII) | create+encode(ko)+store+decode_explicit" : "create+encode | load+encode+decode_explicit | load+crypt+keygen, all English / coin 1");
         char note[200]; snprintf(note, sizeof note, "%s; states = distinct (shared data, progress, values read, running thread) keys; transitions = enabled choices", complete ? "all interleavings explored (complete, no preemption bound)" : bound_done >= 0 ? "state cap hit without bound; completed with preemption bound (see e3_preemption_bound)" : "stopped early");
         out_part(name, r, CLS, note);
         char k[64]; snprintf(k, sizeof k, "e3_H%d_complete", HARNESS); out_kv_int(k, complete); snprintf(k, sizeof k, "e3_H%d_preemption_bound", HARNESS); out_kv_int(k, complete ? -1 : bound_done); snprintf(k, sizeof k, "e3_H%d_executions", HARNESS); out_kv_int(k, o.execs);
